@@ -1,0 +1,28 @@
+//go:build verif
+
+package main
+
+import (
+	"hash/fnv"
+	"os"
+	"time"
+)
+
+// verifYield widens the interleavings of the worker goroutines for the
+// verification harness.  It is only compiled with the "verif" build tag and
+// only acts when XSEL_VERIF_YIELD is set: it then sleeps for a duration
+// between 0 and 2ms determined by the seed, the yield point and the file.
+func verifYield(point, path string) {
+	seed := os.Getenv("XSEL_VERIF_YIELD")
+
+	if seed == "" {
+		return
+	}
+
+	h := fnv.New32a()
+	h.Write([]byte(seed))
+	h.Write([]byte(point))
+	h.Write([]byte(path))
+
+	time.Sleep(time.Duration(h.Sum32()%2000) * time.Microsecond)
+}
